@@ -73,6 +73,21 @@ def mk_op(name, params=(), label=None):
         from qiskit.quantum_info import random_unitary
         seed, nq = int(params[0]), int(params[1])
         return UnitaryGate(random_unitary(2 ** nq, seed=seed), label=label)
+    if name == "unitary_kron":
+        # a two-qubit UnitaryGate WITHOUT non-local content: e^{i phase} (A (x) B), A and B Haar-random one-qubit unitaries (seeds), or, with
+        # seeds given as lists of angles, A / B = rz.ry.rx layers; optional third parameter = global phase
+        from qiskit.circuit.library import UnitaryGate
+        from qiskit.quantum_info import random_unitary, Operator
+
+        def one(s):
+            if isinstance(s, (list, tuple)):
+                m = np.eye(2, dtype=complex)
+                for nm, a in zip(("rx", "ry", "rz"), s):
+                    m = Operator(lib[nm](float(a))).data @ m
+                return m
+            return random_unitary(2, seed=int(s)).data
+        ph = float(params[2]) if len(params) > 2 else 0.0
+        return UnitaryGate(np.exp(1j * ph) * np.kron(one(params[0]), one(params[1])), label=label)
     cls = lib[name]
     ps = [float(Fraction(p)) if isinstance(p, str) and "/" in p else (float(p) if not isinstance(p, float) else p) for p in params]
     op = cls(*ps)
